@@ -3,6 +3,7 @@ mod ctor;
 mod fl;
 mod obj;
 mod reg;
+mod sup;
 mod rng;
 mod tree;
 mod tw;
@@ -21,6 +22,7 @@ fn main() {
         "ctor-replay" => ctor::replay(rest),
         "ctor-fuzz" => ctor::fuzz(rest),
         "obj-replay" => obj::replay(rest),
+        "sup-drive" => sup::drive(rest),
         "tree-drive-floats" => tree::drive_floats(rest),
         _ => { eprintln!("unknown subcommand {:?}", cmd); 2 }
     };
